@@ -99,6 +99,7 @@ class Executor:
         self._fresh = 0
         self.fresh_ids = set()
         self.param_ids = {}
+        self.path_state = {}
         SymObj._n = 0
 
     def fresh_name(self, base):
@@ -178,7 +179,7 @@ class Executor:
             return True
         if can_f:
             return False
-        raise Unsupported('infeasible path reached')
+        raise Infeasible()
 
     def assume(self, cond):
         self.pc.append(cond)
@@ -259,9 +260,11 @@ class Executor:
             self.reset_path(tr)
             try:
                 v = run(self)
-                outcomes.append(Outcome('return', v, list(self.pc), list(self.log), list(self.writes), list(self.choices)))
+                outcomes.append(Outcome('return', v, list(self.pc), list(self.log), list(self.writes), list(self.choices), state=self.path_state))
+            except Infeasible:
+                self.n_infeasible = getattr(self, 'n_infeasible', 0) + 1
             except SymRaise as e:
-                outcomes.append(Outcome('raise', e.cls, list(self.pc), list(self.log), list(self.writes), list(self.choices), exc=e))
+                outcomes.append(Outcome('raise', e.cls, list(self.pc), list(self.log), list(self.writes), list(self.choices), exc=e, state=self.path_state))
         return outcomes
 
     # ------------------------------------------------------------------ values
@@ -401,12 +404,16 @@ class Executor:
                 v.nonempty = (k == 0)
                 self.push_undo(lambda: setattr(v, 'nonempty', None))
             return v.nonempty
-        if isinstance(v, (Closure, BoundMethod, ExcVal, SuperProxy)):
+        if isinstance(v, (Closure, BoundMethod, ExcVal, SuperProxy, Stub)):
             return True
+        if isinstance(v, ModelObj):
+            return v.m_truth(self)
         return bool(v)
 
     # ------------------------------------------------------------------ attribute access
     def getattr_(self, obj, attr, node=None):
+        if isinstance(obj, ModelObj):
+            return obj.m_getattr(self, attr)
         if isinstance(obj, SymObj):
             if self.is_none(obj):
                 raise SymRaise(AttributeError, (f"'NoneType' object has no attribute '{attr}'",), origin=self.where(node))
@@ -566,6 +573,8 @@ class Executor:
             return self.call(f.func, [f.self_obj] + list(args), kwargs, node)
         if isinstance(f, Closure):
             return self.call_closure(f, args, kwargs, node)
+        if isinstance(f, Stub):
+            return f.fn(self, args, kwargs)
         if isinstance(f, SymObj):
             if f.cls is not None and '__call__' in dir(f.cls):
                 return self.call(self.class_attr(f, f.cls, '__call__'), args, kwargs, node)
